@@ -74,7 +74,9 @@ def decode_events(boundary: bytes, chunks: list[bytes], max_form_memory_size=Non
     return ("ok", [(p[0], p[1], p[2], tuple(p[3]), bytes(p[4])) for p in parts])
 
 
-def split(body: bytes, cuts: list[int]) -> list[bytes]:
+def split(body: bytes, cuts: list[int], empties: list[int] | None = None) -> list[bytes]:
+    """Pieces of ``body`` cut at ``cuts``; ``empties`` lists piece positions before which a zero-length arrival is
+    delivered as well (a receive call that brings nothing is still a legal way for the bytes to arrive)."""
     cs = sorted({c for c in cuts if isinstance(c, int) and 0 < c < len(body)})
     out = []
     prev = 0
@@ -82,6 +84,8 @@ def split(body: bytes, cuts: list[int]) -> list[bytes]:
         out.append(body[prev:c])
         prev = c
     out.append(body[prev:])
+    for pos in sorted({e for e in (empties or []) if isinstance(e, int) and 0 <= e <= len(out)}, reverse=True):
+        out.insert(pos, b"")
     return out
 
 
@@ -153,12 +157,19 @@ class DecoderChunking(Scenario):
             sched = {"kind": "cuts", "cuts": sorted(rng.choice(offs) for _ in range(k))}
         elif strat == "sweep3":
             sched = {"kind": "sweep3", "limit": 56 if tier == "quick" else 90}
+        if sched["kind"] == "cuts" and rng.random() < 0.3:
+            sched["empties"] = sorted(rng.randrange(0, len(sched["cuts"]) + 2) for _ in range(rng.choice([1, 1, 2])))
+        elif sched["kind"] in ("sweep2", "bytewise"):
+            sched["empty_every"] = rng.choice([0, 0, 3, 7])
         spec["schedule"] = sched
         return spec
 
-    def narrow(self, case: dict, cuts: list[int]) -> dict:
+    def narrow(self, case: dict, hint) -> dict:
         c = dict(case)
+        cuts, empties = hint if isinstance(hint, tuple) else (hint, [])
         c["schedule"] = {"kind": "cuts", "cuts": list(cuts)}
+        if empties:
+            c["schedule"]["empties"] = list(empties)
         return c
 
     def execute(self, case: dict) -> Outcome:
@@ -200,18 +211,28 @@ class DecoderChunking(Scenario):
         nparts = len(truth)
         execs = 0
         if not out.violations:
-            for cuts in schedules:
-                got = decode_events(boundary, split(body, cuts))
+            fixed_empties = [e for e in sched.get("empties", []) if isinstance(e, int)] if kind == "cuts" else []
+            every = sched.get("empty_every", 0) if isinstance(sched.get("empty_every", 0), int) else 0
+            runs: list[tuple[list[int], list[int]]] = []
+            for j, cuts in enumerate(schedules):
+                runs.append((cuts, fixed_empties))
+                if every > 0 and j % every == 0:
+                    # the same cut with a zero-length arrival before, between or after the pieces
+                    runs.append((cuts, [j % (len(cuts) + 2)]))
+            for cuts, empties in runs:
+                got = decode_events(boundary, split(body, cuts, empties))
                 execs += 1
+                if empties:
+                    out.fault("zero_length_arrival")
                 if len(cuts) <= 3:
                     for c in cuts:
                         out.probe("cut:" + cut_context(body, marks, c, nl))
                 if got != ref:
                     suffix, msg = classify_diff(ref, got, style)
                     bl = any(p.get("bodyless") for p in case.get("parts", []))
-                    out.violate(f"{pre}/{suffix}", f"cuts={cuts[:8]} bodyless_part={bl}: {msg}")
-                    tr.add("diverged", cuts[:8], suffix)
-                    out.extra["narrow"] = cuts
+                    out.violate(f"{pre}/{suffix}", f"cuts={cuts[:8]} empty_arrivals_at={empties} bodyless_part={bl}: {msg}")
+                    tr.add("diverged", cuts[:8], empties, suffix)
+                    out.extra["narrow"] = (cuts, empties)
                     break
         tr.add("schedules", kind, execs, "ref", ref[0], [(p[0], p[1], p[2], len(p[4])) for p in ref[1]] if ref[0] == "ok" else ref[1:3])
         out.steps = execs
